@@ -144,7 +144,8 @@ func parseHeaders(decodeFn qpack.DecodeFunc, isRequest bool, sizeLimit int, head
 		}
 	}
 	hdr.ContentLength = -1
-	if len(contentLengthStr) > 0 {
+	if readContentLength {
+		// an empty Content-Length is not a number: ParseUint fails on it
 		// use ParseUint instead of ParseInt, so that parsing fails on negative values
 		cl, err := strconv.ParseUint(contentLengthStr, 10, 63)
 		if err != nil {
